@@ -66,7 +66,8 @@ def run(ctx):
         for idx, rec, rc in crashes:
             text = core.uncps(rec.get("text", [])) if rec else ""
             ctx.report("process died (rc=%s) on %s" % (rc, json.dumps(text)[:100]), {"kind": "api-crash", "event": rec, "rc": rc}, None)
-        mism, _, n = ctx.validate(evp)
+        # TLC judges the recorded calls, not the text: long inputs are cut in its copy of the events
+        mism, _, n = ctx.validate(evp, slim=lambda o: dict(o, text=o["text"][:200]) if len(o.get("text", [])) > 200 else o)
         for e in core.iter_ndjson(evp):
             calls += e["calls"]
             ctx.nontrivial.add(hash(tuple(e["text"])) if e["text"] else hash(e["id"]))
